@@ -8,7 +8,7 @@ from lib import gpgen
 from py2v import gen
 
 PROP = "C05"
-PROPS_FILES = ["Props/C05.v", "Props/C05_incumbent.v", "Props/C05_qei.v"]
+PROPS_FILES = ["Props/C05.v", "Props/C05_incumbent.v", "Props/C05_qei.v", "Props/C05_qeif.v"]
 ASSUMPTIONS = [
   "real arithmetic (Coq R / Coquelicot); Phi := 1/2 + RInt pdf 0 z, so Phi' = pdf is proved; 0 < Phi < 1 and z*Phi(z) -> 0 at -infinity (Gaussian integral facts H_Phi_range, H_Phi_tail) are assumptions",
   "E[max(best - Y, 0)] is characterised through its derivative in the incumbent (= Phi(z) = P(Y <= best)); the improper integral itself is not formalised: the searcher compares with numerical quadrature",
@@ -129,6 +129,11 @@ def correspondence(ctx):
   qc = qei_correspondence(ctx)
   dist.update(qc["distribution"])
   dis += qc["disagreements"]
+  fc = qeif_correspondence(ctx)
+  dist.update(fc["distribution"])
+  dis += fc["disagreements"]
+  qc = dict(evaluations=qc["evaluations"] + fc["evaluations"], distinct=qc["distinct"] + fc["distinct"], rule=qc["rule"] + "; " + fc["rule"],
+            samples=qc["samples"] + fc["samples"])
   return dict(evaluations=len(cases) + qc["evaluations"], distinct_nontrivial=nontriv + qc["distinct"],
               rule="batched evaluation of a recording acquisition function (integer tags, batch sizes None/0/1/2/3/n/n+1/17, n in 0..9) and the incumbents of "
                    "ExpectedImprovement / AugmentedExpectedImprovement / ExpectedImprovementWithFailures on small GPs with dyadic tied values; non-trivial = at "
